@@ -306,11 +306,19 @@ func (r *runner) line(line string) string {
 			return "bad-op"
 		}
 		n, ok := parseN(f[1])
+		def := f[1] == "d" // `remap d`: NewReMap() with no option — 73 shards, whoever used WithPrime before in this process
+		if def {
+			n, ok = 73, true
+		}
 		if !ok {
 			return "bad-op"
 		}
 		r.mode = ""
 		out, p := guardS(func() string {
+			if def {
+				r.rm, r.rm2 = remap.NewReMap(), remap.NewReMap()
+				return "ok"
+			}
 			r.rm = remap.NewReMap(remap.WithPrime(n))
 			r.rm2 = remap.NewReMap(remap.WithPrime(n))
 			return "ok"
@@ -318,7 +326,7 @@ func (r *runner) line(line string) string {
 		if !p {
 			r.mode, r.n, r.lastX, r.lastI = "remap", n, nil, nil
 			if r.rm.Numbs() != n {
-				r.hit("C17:remap.NewReMap:shard-count", fmt.Sprintf("WithPrime(%d) gives Numbs()=%d", n, r.rm.Numbs()))
+				r.hit("C17:remap.NewReMap:shard-count", fmt.Sprintf("%s: a ReMap for %d shards (`d` = no option, default) reports Numbs()=%d", strings.Join(f, " "), n, r.rm.Numbs()))
 			}
 		}
 		return out
